@@ -32,10 +32,14 @@ def facts : Glob.Facts :=
   { reWrap := C21.reWrap, replacements := C21.replacements, doubleStar := C21.doubleStar,
     outDir := C21.outDir, hiddenPrefix := C21.hiddenPrefix, hiddenWrap := C21.hiddenWrap }
 
-/-- Side condition on the regenerated facts: the `ReplaceAll` chain, the wrap, the `**` selector, the plz-out literal
-    and the hidden markers are the ones the theorems below were proved for; the structural shapes were recognised. -/
+/-- Which optional repairs of `toRegexString` the chain read on this run contains. -/
+def opts : MOpts := optsOfChain C21.replacements
+
+/-- Side condition on the regenerated facts: the `ReplaceAll` chain is the known chain with *some* combination of the
+    three optional repairs (`chainFor`), the wrap, the `**` selector, the plz-out literal and the hidden markers are
+    the ones the theorems below were proved for; the structural shapes were recognised. -/
 def FactsOK : Bool :=
-  decide (C21.reWrap = Glob.Facts.canon.reWrap) && decide (C21.replacements = Glob.Facts.canon.replacements) &&
+  decide (C21.reWrap = Glob.Facts.canon.reWrap) && decide (C21.replacements = chainFor (optsOfChain C21.replacements)) &&
   decide (C21.doubleStar = Glob.Facts.canon.doubleStar) && decide (C21.outDir = Glob.Facts.canon.outDir) &&
   decide (C21.hiddenPrefix = Glob.Facts.canon.hiddenPrefix) && decide (C21.hiddenWrap = Glob.Facts.canon.hiddenWrap) &&
   C21.builtinWhenNoDoubleStar && C21.matcherJoinsRoot && C21.regexFromFullPattern && C21.outDirOnlyAtDotRoot &&
@@ -45,12 +49,12 @@ def FactsOK : Bool :=
 /-- Obligation a code change can break. -/
 theorem C21_facts_ok : FactsOK = true := by decide
 
-theorem facts_eq_canon : facts = Glob.Facts.canon := by
+theorem facts_eq_canon : facts = Glob.Facts.withOpts opts := by
   have h := C21_facts_ok
   simp only [FactsOK, Bool.and_eq_true, decide_eq_true_eq] at h
   obtain ⟨⟨⟨⟨⟨⟨⟨⟨⟨⟨⟨⟨⟨⟨⟨⟨⟨⟨h1, h2⟩, h3⟩, h4⟩, h5⟩, h6⟩, _⟩, _⟩, _⟩, _⟩, _⟩, _⟩, _⟩, _⟩, _⟩, _⟩, _⟩, _⟩, _⟩ := h
-  simp only [facts, Glob.Facts.canon] at *
-  simp only [h1, h2, h3, h4, h5, h6]
+  simp only [facts, Glob.Facts.withOpts, Glob.Facts.canon, opts] at *
+  simp only [h1, ← h2, h3, h4, h5, h6]
 
 /-! ### helpers for writing concrete trees -/
 
@@ -58,13 +62,21 @@ abbrev fi (n : Name) (rest : Forest := .nil) : Forest := .cons n (.leaf .file) r
 abbrev di (n : Name) (kids : Forest) (rest : Forest := .nil) : Forest := .cons n (.dir kids) rest
 def bcfg : Cfg := ⟨[['B']]⟩
 /-- The model called like builtins.go does (BUILD file names appended to the excludes), result as a set-like list. -/
+def runO (o : MOpts) (root : List Name) (t : Forest) (inc : List Name) (hidden : Bool) : Option (List Name) :=
+  globAll (Glob.Facts.withOpts o) bcfg root (.dir t) inc [['B']] hidden true
+/-- ... on the structure without any of the optional `toRegexString` repairs (what the source was when the
+    findings were recorded). -/
 def run (root : List Name) (t : Forest) (inc : List Name) (hidden : Bool) : Option (List Name) :=
-  globAll Glob.Facts.canon bcfg root (.dir t) inc [['B']] hidden true
+  runO MOpts.none root t inc hidden
 /-- The specification for the same call. -/
 def want (root : List Name) (t : Forest) (inc : List Name) (hidden : Bool) : Option (List Name) :=
   (mkQuery inc [['B']] hidden true).map fun q => specGlob bcfg q root (.dir t)
 
-/-! ### the property as stated fails: seven root causes, each witnessed on the structure the source has today -/
+/-! ### the property as stated fails: seven root causes, each witnessed on the unrepaired structure (`run`)
+
+W2, W3 and W4 are repaired by one `ReplaceAll` line each (`C21_repairs`); W1, W5, W6, W7 persist under every
+combination of those repairs (`C21_witnesses_persist`) and refute the statement for the facts read on this run
+(`C21_exact_refuted`). -/
 
 /-- **W1 hidden-dir-contents (src/fs/glob.go:273 `isHidden` looks at `filepath.Base` only).**  Package `p` holds
     `.h/b.t`; `glob(["**/*.t"])` returns it although it lies inside a hidden directory. -/
@@ -121,25 +133,49 @@ theorem C21_witness_plz_out_name_any_depth :
     want [] (di ['n'] (fi plzOut (fi ['z']))) [['n', '/', '*']] false = some [['n', '/', 'p', 'l', 'z', '-', 'o', 'u', 't'], ['n', '/', 'z']] := by
   decide
 
-/-- **The full-strength statement is refuted.** -/
+/-- The four defects that are not in `toRegexString` persist whatever combination of its repairs is in place. -/
+theorem C21_witnesses_persist (o : MOpts) :
+    runO o [['p']] (fi ['B'] (di ['.', 'h'] (fi ['b', '.', 't']))) [['*', '*', '/', '*', '.', 't']] false
+      = some [['.', 'h', '/', 'b', '.', 't']] ∧
+    runO o [] (fi ['a']) [['*']] true = some [['.'], ['a']] ∧
+    runO o [] (di ['d'] (fi ['x'])) [['d', '[', '^', 'a', ']', 'x']] false = some [['d', '/', 'x']] ∧
+    runO o [] (di ['n'] (di plzOut (fi ['h']))) [['n', '/', '*']] false = some [] := by
+  obtain ⟨a, b, c⟩ := o
+  cases a <;> cases b <;> cases c <;> decide
+
+/-- Each of the three `toRegexString` repairs removes its witness: with `?` ↦ `[^/]` the pattern `d/**/a?b` no longer
+    returns `d/a/b`; with the leading `^.*/` ↦ `^(.*/)?` the root package's `**/*.t` finds `a.t`; with `(` `)` `|`
+    escaped `d/**/x(1).t` selects `d/x(1).t` and nothing else. -/
+theorem C21_repairs :
+    runO ⟨true, false, false⟩ [] (di ['d'] (di ['a'] (fi ['b']))) [['d', '/', '*', '*', '/', 'a', '?', 'b']] false = some [] ∧
+    runO ⟨false, true, false⟩ [] (fi ['a', '.', 't']) [['*', '*', '/', '*', '.', 't']] false = some [['a', '.', 't']] ∧
+    runO ⟨false, false, true⟩ [] (di ['d'] (fi ['x', '(', '1', ')', '.', 't'] (fi ['x', '1', '.', 't'])))
+      [['d', '/', '*', '*', '/', 'x', '(', '1', ')', '.', 't']] false = some [['d', '/', 'x', '(', '1', ')', '.', 't']] := by
+  decide
+
+/-- **The full-strength statement is refuted for the facts read on this run** (by the hidden-directory witness,
+    which no `toRegexString` repair touches). -/
 theorem C21_exact_refuted :
     ¬ ∀ (root : List Name) (t : Forest) (inc : List Name) (hidden : Bool) (q : Query) (l : List Name),
-        mkQuery inc [['B']] hidden true = some q → globAll Glob.Facts.canon bcfg root (.dir t) inc [['B']] hidden true = some l →
+        mkQuery inc [['B']] hidden true = some q → globAll facts bcfg root (.dir t) inc [['B']] hidden true = some l →
         l.Perm (specGlob bcfg q root (.dir t)) := by
   intro h
-  have w := C21_witness_leading_doublestar_root_package
+  have w := (C21_witnesses_persist opts).1
+  have ww := C21_witness_hidden_dir_contents.2
   obtain ⟨q, hq⟩ : ∃ q, mkQuery [['*', '*', '/', '*', '.', 't']] [['B']] false true = some q := by
     cases e : mkQuery [['*', '*', '/', '*', '.', 't']] [['B']] false true with
-    | none => have := w.2.1; simp [want, e] at this
+    | none => simp [want, e] at ww
     | some q => exact ⟨q, rfl⟩
-  have hp := h [] (fi ['a', '.', 't']) [['*', '*', '/', '*', '.', 't']] false q [] hq w.1
-  have hw := w.2.1
-  simp only [want, hq, Option.map_some, Option.some.injEq] at hw
-  rw [hw] at hp
+  have hp := h [['p']] (fi ['B'] (di ['.', 'h'] (fi ['b', '.', 't']))) [['*', '*', '/', '*', '.', 't']] false q _ hq
+    (by rw [facts_eq_canon]; exact w)
+  simp only [want, hq, Option.map_some, Option.some.injEq] at ww
+  rw [ww] at hp
   exact absurd hp.length_eq (by decide)
 
-/-- The structure read on this run is the structure the witnesses are about. -/
-theorem C21_witnesses_apply : globAll facts = globAll Glob.Facts.canon := by rw [facts_eq_canon]
+/-- While the chain read on this run has none of the optional repairs, it is the structure the witnesses are about
+    (each repair removes its witness: see `C21_match_exact`, whose hypotheses relax with `opts`). -/
+theorem C21_witnesses_apply (h : opts = MOpts.none) : globAll facts = globAll Glob.Facts.canon := by
+  rw [facts_eq_canon, h]; rfl
 
 /-! ### what holds for every input: the matchers on the fragment -/
 
@@ -153,20 +189,20 @@ theorem C21_witnesses_apply : globAll facts = globAll Glob.Facts.canon := by rw 
     uses one (W2; `structMatch` reads every literal as itself, the string-level model and the code do not).
     Full statement: the same for all patterns; false by W2, W3, W4, W6. -/
 theorem C21_match_exact (root : List Name) (segs : List Seg) (rel : List Name)
-    (ok : okSegs (!hasDstar segs) segs = true) (na : noAdjacentDstar segs = true)
-    (groot : gpath root = true) (sroot : safePath (!hasDstar segs) root = true)
+    (ok : okSegs (modeOf opts segs) segs = true) (na : noAdjacentDstar segs = true)
+    (groot : gpath root = true) (sroot : safePath (modeOf opts segs) root = true)
     (grel : gpath rel = true) (hrel : rel ≠ []) (hs : segs ≠ [])
-    (hlead : root = [] → leadingDstar segs = false) :
-    structMatch root segs (joinSlash (root ++ rel)) = segMatch segs rel :=
-  structMatch_spec root segs rel ok na groot sroot grel hrel hs hlead
+    (hlead : root = [] → opts.leadOpt = true ∨ leadingDstar segs = false) :
+    structMatch opts root segs (joinSlash (root ++ rel)) = segMatch segs rel :=
+  structMatch_spec opts root segs rel ok na groot sroot grel hrel hs hlead
 
 -- the hypotheses are satisfiable: `src/**/*_test.go` in package `pkg` against `src/a/b/x_test.go`
-example : structMatch [['p', 'k', 'g']]
+example : structMatch opts [['p', 'k', 'g']]
     [.items [.lit 's', .lit 'r', .lit 'c'], .dstar, .items [.star, .lit '_', .lit 't', .lit '.', .lit 'g', .lit 'o']]
     (joinSlash ([['p', 'k', 'g']] ++ [['s', 'r', 'c'], ['a'], ['b'], ['x', '_', 't', '.', 'g', 'o']])) = true := by decide
 
 /-- `filepath.Match` alone (patterns without `**`): `?` *is* confined to a component there. -/
-theorem C21_builtin_exact (segs : List Seg) (comps : List Name) (ok : okSegs true segs = true)
+theorem C21_builtin_exact (segs : List Seg) (comps : List Name) (ok : okSegs Mode.builtin segs = true)
     (g : gpath comps = true) (hne : comps ≠ []) (hs : segs ≠ []) :
     gmatch (flattenSegs segs) (joinSlash comps) = segMatch segs comps :=
   builtin_spec segs comps ok g hne hs
@@ -174,10 +210,10 @@ theorem C21_builtin_exact (segs : List Seg) (comps : List Name) (ok : okSegs tru
 /-- The regexp alone, at any position (`atStart = false`: a '/' precedes, as everywhere outside the root package):
     `a/**/b` ↦ `a/(.*/)?b` and `a/**` ↦ `a/.*` are exact. -/
 theorem C21_regex_exact (segs : List Seg) (atStart : Bool) (comps : List Name)
-    (ok : okSegs false segs = true) (na : noAdjacentDstar segs = true) (g : gpath comps = true)
-    (hne : comps ≠ []) (hs : segs ≠ []) (hst : atStart = true → leadingDstar segs = false) :
-    rmatch (toReSegs false atStart segs) (·.isEmpty) (joinSlash comps) = segMatch segs comps :=
-  toReSegs_spec false segs atStart comps ok na g hne hs hst
+    (ok : okSegs (Mode.regex opts) segs = true) (na : noAdjacentDstar segs = true) (g : gpath comps = true)
+    (hne : comps ≠ []) (hs : segs ≠ []) (hst : atStart = true → opts.leadOpt = true ∨ leadingDstar segs = false) :
+    rmatch (toReSegs (Mode.regex opts) atStart segs) (·.isEmpty) (joinSlash comps) = segMatch segs comps :=
+  toReSegs_spec (Mode.regex opts) segs atStart comps ok na g hne hs hst
 
 /-- **From the pattern text to the parsed-pattern matcher: the `filepath.Match` half, proved.**  For a parsed pattern
     without `**` whose items are what `parseGlob` produces (`canonItem`) and whose text `renderSegs segs` is a clean
@@ -189,8 +225,8 @@ theorem C21_regex_exact (segs : List Seg) (atStart : Bool) (comps : List Name)
 theorem C21_builtin_bridge (root : List Name) (segs : List Seg) (gr : gpath root = true) (hs : segs ≠ [])
     (hnd : hasDstar segs = false) (hc : (flattenSegs (root.map litSeg ++ segs)).all canonItem = true)
     (hclean : cleanPat (renderSegs segs) = true) (hns : containsSub ['*', '*'] (renderSegs segs) = false) (n : Name) :
-    (patternToMatcher facts (nameOf root) (renderSegs segs)).map (·.run n) = some (structMatch root segs n) :=
-  builtin_bridge_run facts (by rw [facts_eq_canon]; rfl) root segs gr hs hnd hc hclean hns n
+    (patternToMatcher facts (nameOf root) (renderSegs segs)).map (·.run n) = some (structMatch opts root segs n) :=
+  builtin_bridge_run facts (by rw [facts_eq_canon]; rfl) opts root segs gr hs hnd hc hclean hns n
 
 -- the hypotheses are satisfiable, and `renderSegs` is the pattern text: `*.[a-k]?` in package `p`
 example : renderSegs [.items [.star, .lit '.', .cls false [('a', 'k')], .any]] = ['*', '.', '[', 'a', '-', 'k', ']', '?'] ∧
@@ -208,13 +244,13 @@ def sampleNames : List Name :=
 
 example : ∀ n ∈ sampleNames,
     (patternToMatcher Glob.Facts.canon ['p'] ['a', '/', '*', '*', '/', '*', '.', 't']).map (·.run n) =
-    some (structMatch [['p']] [.items [.lit 'a'], .dstar, .items [.star, .lit '.', .lit 't']] n) := by decide
+    some (structMatch MOpts.none [['p']] [.items [.lit 'a'], .dstar, .items [.star, .lit '.', .lit 't']] n) := by decide
 example : ∀ n ∈ sampleNames,
     (patternToMatcher Glob.Facts.canon ['.'] ['*', '*', '/', 'a', '+', 'b']).map (·.run n) =
-    some (structMatch [] [.dstar, .items [.lit 'a', .lit '+', .lit 'b']] n) := by decide
+    some (structMatch MOpts.none [] [.dstar, .items [.lit 'a', .lit '+', .lit 'b']] n) := by decide
 example : ∀ n ∈ sampleNames,
     (patternToMatcher Glob.Facts.canon ['p'] ['*', '.', '[', 'a', '-', 'k', ']', '?']).map (·.run n) =
-    some (structMatch [['p']] [.items [.star, .lit '.', .cls false [('a', 'k')], .any]] n) := by decide
+    some (structMatch MOpts.none [['p']] [.items [.star, .lit '.', .cls false [('a', 'k')], .any]] n) := by decide
 
 /-! ### what holds for every input: the filters -/
 
@@ -290,28 +326,28 @@ theorem C21_exact_partial (cfg : Cfg) (q : Query) (root : List Name) (cs : Fores
     (gr : gpath root = true) (gok : Forest.gok cs.sort = true)
     (ben : benF cfg q.hidden root.isEmpty true cs.sort = true)
     (hroot : cfg.buildNames.contains (lastOr root) = false)
-    (hinc : ∀ segs ∈ q.includes, patOK root segs)
-    (hexc : ∀ x ∈ q.excludes, patOK root x.2 ∧ x.2.length = (splitOnSlash x.1).length ∧ gpath (splitOnSlash x.1) = true)
+    (hinc : ∀ segs ∈ q.includes, patOK opts root segs)
+    (hexc : ∀ x ∈ q.excludes, patOK opts root x.2 ∧ x.2.length = (splitOnSlash x.1).length ∧ gpath (splitOnSlash x.1) = true)
     (m : Name) (hm : m ≠ nameOf root) :
     ((m ∈ (walkDir facts cfg root (.dir cs)).files ∨ (q.symlinks = true ∧ m ∈ (walkDir facts cfg root (.dir cs)).symlinks)) ∧
-      (q.includes.any fun s => structMatch root s m) = true ∧
+      (q.includes.any fun s => structMatch opts root s m) = true ∧
       isInDirectories m (walkDir facts cfg root (.dir cs)).subPackages = false ∧
       (q.hidden = true ∨ isHidden facts m = false) ∧
-      (q.excludes.any fun x => exclOneS root m x.1 x.2) = false)
+      (q.excludes.any fun x => exclOneS opts root m x.1 x.2) = false)
     ↔ ∃ e ∈ specFo cfg q root.isEmpty [] cs.sort, m = nameOf (root ++ e) :=
-  glob_struct_exact facts (by rw [facts_eq_canon]; exact ⟨rfl, rfl, rfl⟩) cfg q root cs gr gok ben hroot hinc hexc m hm
+  glob_struct_exact facts (by rw [facts_eq_canon]; exact ⟨rfl, rfl, rfl⟩) opts cfg q root cs gr gok ben hroot hinc hexc m hm
 
 -- the pattern hypotheses are satisfiable: `src/**/*.go` with exclude `*_test.go` in package `pkg`
-example : patOK [['p', 'k', 'g']] [.items [.lit 's', .lit 'r', .lit 'c'], .dstar, .items [.star, .lit '.', .lit 'g', .lit 'o']] ∧
-    patOK [['p', 'k', 'g']] [.items [.star, .lit '_', .lit 't', .lit '.', .lit 'g', .lit 'o']] := by
+example : patOK opts [['p', 'k', 'g']] [.items [.lit 's', .lit 'r', .lit 'c'], .dstar, .items [.star, .lit '.', .lit 'g', .lit 'o']] ∧
+    patOK opts [['p', 'k', 'g']] [.items [.star, .lit '_', .lit 't', .lit '.', .lit 'g', .lit 'o']] := by
   refine ⟨⟨by decide, by decide, by simp, by decide, by intro h; cases h⟩, ⟨by decide, by decide, by simp, by decide, by intro h; cases h⟩⟩
 
 /-- One exclude pattern, as `shouldExcludeMatch` treats it, against the specification's three clauses (file name only
     for a pattern without separator; from the package directory; names the entry or a directory above it). -/
 theorem C21_exclude_exact (root : List Name) (raw : Name) (segs : List Seg) (e : List Name)
-    (gr : gpath root = true) (ge : gpath e = true) (he : e ≠ []) (hp : patOK root segs)
+    (gr : gpath root = true) (ge : gpath e = true) (he : e ≠ []) (hp : patOK opts root segs)
     (hlen : segs.length = (splitOnSlash raw).length) (graw : gpath (splitOnSlash raw) = true) :
-    exclOneS root (nameOf (root ++ e)) raw segs = specExclOne raw segs e :=
-  exclOneS_spec root raw segs e gr ge he hp hlen graw
+    exclOneS opts root (nameOf (root ++ e)) raw segs = specExclOne raw segs e :=
+  exclOneS_spec opts root raw segs e gr ge he hp hlen graw
 
 end PlzVerif.Props.C21
